@@ -1,5 +1,8 @@
 import NavisModel.Proofs.PartitionLemmas
 import NavisModel.Proofs.ZipLemmas
+import NavisModel.Proofs.SmartLemmas
+import NavisModel.Proofs.JobSpecLemmas
+import NavisModel.Gen.NblastJobs
 /-!
 # C09 — results are independent of cores, job partitioning and completion order
 
@@ -142,5 +145,469 @@ example : findOptimalPartition 4 3 5 = some (2, 2) := by decide
 example : process (fun (x : Nat) (a : List (Arg Nat)) => if x = 2 then none else some (x, a)) [1,2,3]
     [(false, .many [7,8,9]), (true, .many [7,8,9])] true =
     some [(1, [.scalar 7, .many [7,8,9]]), (3, [.scalar 9, .many [7,8,9]])] := by decide
+
+/-! # Second pass
+
+## A. The index expressions of the *current source* (translator: `Gen/NblastJobs.lean`)
+
+`Gen.NblastJobs.nblast` … are the job loops of `navis/nbl/*.py` as re-extracted on this run: which array
+each append loop walks, whether neuron / self hit are looked up by element or by counter, the expressions
+behind `this.queries`, `this.targets`, `q_idx=`, `t_idx=`, the rows / columns of the `.iloc` placement,
+which lists give the matrix its shape and labels.  `Program.run` interprets them with jobs completing in
+an arbitrary order; `f x y` is the score of blaster entry `x` against `y` (an entry = which neuron of which
+list + whose pre-computed self hit), so the statements cover values *and* the self hit used to
+normalise them. -/
+section Source
+open Navis.JobSpec Navis.Gen.NblastJobs
+
+theorem nblast_source_sound : Sound nblast true (fun _ _ => True) :=
+  sound_concat nblast true "query_dps" "target_dps" rfl rfl rfl rfl rfl rfl rfl (by decide)
+
+theorem allbyall_source_sound : Sound allbyall true ValidEnum :=
+  sound_union allbyall true "dps" rfl rfl rfl rfl rfl rfl rfl rfl (by decide)
+
+theorem smartPre_source_sound : Sound smartPre true (fun _ _ => True) :=
+  sound_concat smartPre true "query_dps_simp" "target_dps_simp" rfl rfl rfl rfl rfl rfl rfl (by decide)
+
+theorem synblast_source_sound : Sound synblast true (fun _ _ => True) :=
+  sound_concat synblast true "query" "target" rfl rfl rfl rfl rfl rfl rfl (by decide)
+
+theorem nblastAlign_source_sound : Sound nblastAlign false (fun _ _ => True) :=
+  sound_concat nblastAlign false "query" "target" rfl rfl rfl rfl rfl rfl rfl (by decide)
+
+/-- **`nblast` as written today**: for every partition and every completion order the matrix assembled
+through the source's own index expressions holds, in cell `(r, c)`, the score of query `r` (with query
+`r`'s self hit) against target `c` (with target `c`'s self hit) — rows and columns in input order. -/
+theorem nblast_source_any_order {α} (f : Ent → Ent → α) (nq nt rows cols : Nat) (hr : 0 < rows) (hc : 0 < cols)
+    (enum : Job → List Nat) (done : List Job) (hperm : done.Perm (jobs nq nt rows cols)) (r c : Nat) :
+    nblast.run f enum done r c =
+      if r < nq ∧ c < nt then some (some (f (mkEnt true "query_dps" r) (mkEnt true "target_dps" c))) else none :=
+  run_sound nblast true _ nblast_source_sound f nq nt rows cols hr hc enum (fun _ _ => trivial) done hperm r c
+
+/-- **`nblast_allbyall` as written today**, for every order in which Python enumerates
+`set(qix) | set(tix)` inside each job. -/
+theorem allbyall_source_any_order {α} (f : Ent → Ent → α) (n rows cols : Nat) (hr : 0 < rows) (hc : 0 < cols)
+    (enum : Job → List Nat) (henum : ∀ j ∈ jobs n n rows cols, ValidEnum (enum j) j)
+    (done : List Job) (hperm : done.Perm (jobs n n rows cols)) (r c : Nat) :
+    allbyall.run f enum done r c =
+      if r < n ∧ c < n then some (some (f (mkEnt true "dps" r) (mkEnt true "dps" c))) else none :=
+  run_sound allbyall true _ allbyall_source_sound f n n rows cols hr hc enum henum done hperm r c
+
+/-- **pre-NBLAST of `nblast_smart` as written today** (on the simplified dotprops, with *their* self hits). -/
+theorem smartPre_source_any_order {α} (f : Ent → Ent → α) (nq nt rows cols : Nat) (hr : 0 < rows) (hc : 0 < cols)
+    (enum : Job → List Nat) (done : List Job) (hperm : done.Perm (jobs nq nt rows cols)) (r c : Nat) :
+    smartPre.run f enum done r c =
+      if r < nq ∧ c < nt then
+        some (some (f (mkEnt true "query_dps_simp" r) (mkEnt true "target_dps_simp" c))) else none :=
+  run_sound smartPre true _ smartPre_source_sound f nq nt rows cols hr hc enum (fun _ _ => trivial) done hperm r c
+
+/-- **`synblast` as written today.** -/
+theorem synblast_source_any_order {α} (f : Ent → Ent → α) (nq nt rows cols : Nat) (hr : 0 < rows) (hc : 0 < cols)
+    (enum : Job → List Nat) (done : List Job) (hperm : done.Perm (jobs nq nt rows cols)) (r c : Nat) :
+    synblast.run f enum done r c =
+      if r < nq ∧ c < nt then some (some (f (mkEnt true "query" r) (mkEnt true "target" c))) else none :=
+  run_sound synblast true _ synblast_source_sound f nq nt rows cols hr hc enum (fun _ _ => trivial) done hperm r c
+
+/-- **`nblast_align` as written today** (no pre-computed self hits are passed). -/
+theorem nblastAlign_source_any_order {α} (f : Ent → Ent → α) (nq nt rows cols : Nat) (hr : 0 < rows) (hc : 0 < cols)
+    (enum : Job → List Nat) (done : List Job) (hperm : done.Perm (jobs nq nt rows cols)) (r c : Nat) :
+    nblastAlign.run f enum done r c =
+      if r < nq ∧ c < nt then some (some (f (mkEnt false "query" r) (mkEnt false "target" c))) else none :=
+  run_sound nblastAlign false _ nblastAlign_source_sound f nq nt rows cols hr hc enum (fun _ _ => trivial) done hperm r c
+
+/-- The hand-written model of the first pass (`assemble`, `jobResult`) and the interpreted source agree. -/
+theorem nblast_source_agrees_with_model {α} (g : Nat → Nat → α) (nq nt rows cols : Nat) (hr : 0 < rows) (hc : 0 < cols)
+    (enum : Job → List Nat) (done done' : List Job) (h : done.Perm (jobs nq nt rows cols))
+    (h' : done'.Perm (jobs nq nt rows cols)) (r c : Nat) :
+    nblast.run (fun x y => g x.neuron.2 y.neuron.2) enum done r c = (assemble g done' r c).map some := by
+  rw [nblast_source_any_order _ nq nt rows cols hr hc enum done h, assemble_any_order g nq nt rows cols hr hc done' h']
+  by_cases hrc : r < nq ∧ c < nt
+  · rw [if_pos hrc, if_pos hrc]; rfl
+  · rw [if_neg hrc, if_neg hrc]; rfl
+
+/-- The rows the source uses for `scores='both'` are `2q, 2q+1` for each query `q` of the job, the matrix has
+twice as many rows as queries. -/
+theorem nblast_source_both_rows :
+    nblast.bothFactor = some 2 ∧
+    ∃ e, nblast.bothRows = some e ∧ ∀ env : Env, e.eval env = env.j.qix.flatMap fun q => [2 * q, 2 * q + 1] :=
+  ⟨rfl, _, rfl, fun env => by rw [both_rows_eval, bothRows_eq]⟩
+
+/-- Only `nblast` has a `both` mode that is assembled from jobs. -/
+theorem other_sources_have_no_both :
+    allbyall.bothRows = none ∧ smartPre.bothRows = none ∧ synblast.bothRows = none ∧ nblastAlign.bothRows = none :=
+  ⟨rfl, rfl, rfl, rfl⟩
+
+/-- Full phase of `nblast_smart` as written today: the extracted expressions for `this.pairs`, `this.mask`
+and the job's neuron list are those of the model (`Smart.pairs`, `Smart.jobMask`, `qix ++ tix`), and the
+declarative facts hold (`np.where` order, `pairs=this.pairs`, `scr[this.mask] = res` for the job that owns
+the future, the single-job path uses the global mask). -/
+theorem smart_source_facts :
+    smartFull.declOk = true ∧
+    (∀ mask j, smartFull.pairs mask j = Smart.pairs mask j) ∧
+    (∀ mask j, smartFull.jobMask mask j = Smart.jobMask mask j) ∧
+    (∀ j, smartFull.localList j = j.qix.map (mkEnt true "query_dps") ++ j.tix.map (mkEnt true "target_dps")) ∧
+    smartFull.outerLen = "query_dps" ∧ smartFull.innerLen = "target_dps" :=
+  ⟨by decide, smart_pairs_eq smartFull rfl rfl rfl rfl, smart_jobMask_eq smartFull rfl rfl,
+   smart_local_eq smartFull "query_dps" "target_dps" rfl, rfl, rfl⟩
+
+/-- `nblast_smart` — whose job loop reads `qix[0]` and therefore needs non-empty row blocks — never hands
+`n_cores` to `find_batch_partition` (with it the row count may exceed the number of queries, see
+`batch_partition_cores_may_exceed`; `nblast` itself tolerates empty blocks). -/
+theorem smart_batch_never_gets_cores :
+    (∃ sc ∈ batchCalls, sc.1 = "nblast_funcs.py:nblast_smart") ∧
+    ∀ sc ∈ batchCalls, sc.1 = "nblast_funcs.py:nblast_smart" → sc.2 = false := by decide
+
+/-- Every pool map whose results are consumed by position is an ordered one. -/
+theorem ordered_maps_in_source : ∀ sm ∈ mapSites, sm.2 = "imap" ∨ sm.2 = "map" := by decide
+
+/-- `NeuronProcessor.__call__` applies, to positional and keyword arguments alike, the rule modelled by
+`Zip.parseVal`: excluded ⇒ whole; not iterable or `len(a) != len(self.nl)` ⇒ whole; else `a[i]` with `i` the
+position of the neuron. -/
+theorem zip_rule_in_source :
+    zipOver = "self.nl" ∧ zipRules.map (·.kind) = ["args", "kwargs"] ∧
+    ∀ rl ∈ zipRules, rl.excludeTestsLoopKey = true ∧ rl.iterableAndLenShape = true ∧ rl.lenOp = "NotEq" ∧
+      rl.lenOf = "self.nl" ∧ rl.excludedGetsWhole = true ∧ rl.unzippedGetsWhole = true ∧
+      rl.zippedIndexedByNeuronCounter = true := by decide
+
+/-- `map_neuronlist` excludes exactly the positions of the positional arguments *after* the neuron list
+(`proc(nl, *args, **kwargs)`: position 0 is the list), as `Zip.mapNeuronlist` does, and keeps a keyword
+zippable only if it is named in `can_zip` / `must_zip`. -/
+theorem map_neuronlist_excl_in_source (nargs : Nat) :
+    procCalledWithListFirst = true ∧ exclKeywordUnlessIn = ["can_zip", "must_zip"] ∧
+    List.range' exclPosStart (nargs + exclPosStopPlus - exclPosStart) = List.range' 1 nargs :=
+  ⟨rfl, rfl, by simp [exclPosStart, exclPosStopPlus]⟩
+
+end Source
+
+/-! ## B. `scores='both'` -/
+
+/-- **`nblast(scores='both')`**: every job returns the `hstack` + `reshape` interleaving of its forward and
+reverse blocks and it is written to rows `np.repeat(2·qix, 2)` with `[1::2] += 1`.  For every partition and
+completion order row `2r` of the result is the forward, row `2r+1` the reverse score of query `r`. -/
+theorem assemble_both_any_order {α} (f : Nat → Nat → α × α) (nq nt rows cols : Nat) (hr : 0 < rows) (hc : 0 < cols)
+    (done : List Job) (hperm : done.Perm (jobs nq nt rows cols)) (R c : Nat) :
+    assembleBoth f done R c =
+      if R < 2 * nq ∧ c < nt then some (if R % 2 = 0 then (f (R / 2) c).1 else (f (R / 2) c).2) else none := by
+  unfold assembleBoth assembleBlocks
+  rw [fold_place_pairs (fun R c => if R % 2 = 0 then (f (R / 2) c).1 else (f (R / 2) c).2)]
+  · have hiff : (∃ jr ∈ done.map (fun j => (bothJob j, jobResultBoth f j)), R ∈ jr.1.qix ∧ c ∈ jr.1.tix) ↔
+        (∃ j ∈ done, R / 2 ∈ j.qix ∧ c ∈ j.tix) := by
+      constructor
+      · rintro ⟨jr, hjr, h⟩
+        rw [List.mem_map] at hjr
+        obtain ⟨j, hj, rfl⟩ := hjr
+        exact ⟨j, hj, mem_bothRows.mp h.1, h.2⟩
+      · rintro ⟨j, hj, h⟩
+        exact ⟨(bothJob j, jobResultBoth f j), List.mem_map.mpr ⟨j, hj, rfl⟩, mem_bothRows.mpr h.1, h.2⟩
+    by_cases h : R < 2 * nq ∧ c < nt
+    · rw [if_pos h, if_pos]
+      obtain ⟨j, hj, hjc⟩ := cell_covered nq nt rows cols hr hc (show R / 2 < nq by omega) h.2
+      exact hiff.mpr ⟨j, hperm.mem_iff.mpr hj, hjc⟩
+    · rw [if_neg h, if_neg]; · rfl
+      intro hex
+      obtain ⟨j, hj, hjc⟩ := hiff.mp hex
+      have := job_in_range nq nt rows cols hr hc (hperm.mem_iff.mp hj) hjc
+      exact h ⟨by omega, this.2⟩
+  · intro jr hjr a b ha hb
+    rw [List.mem_map] at hjr
+    obtain ⟨j, _, rfl⟩ := hjr
+    exact jobResultBoth_get f j a b ha hb
+
+/-- … hence independent of partition and order, and equal to the single-job result. -/
+theorem both_partition_and_order_irrelevant {α} (f : Nat → Nat → α × α) (nq nt rows cols rows' cols' : Nat)
+    (hr : 0 < rows) (hc : 0 < cols) (hr' : 0 < rows') (hc' : 0 < cols')
+    (done done' : List Job) (h : done.Perm (jobs nq nt rows cols)) (h' : done'.Perm (jobs nq nt rows' cols')) :
+    assembleBoth f done = assembleBoth f done' := by
+  funext R c
+  rw [assemble_both_any_order f nq nt rows cols hr hc done h, assemble_both_any_order f nq nt rows' cols' hr' hc' done' h']
+
+/-! ## C. smart NBLAST -/
+section SmartSec
+open Navis.Smart
+
+/-- **Full phase of `nblast_smart`.** For *every* selection mask, every partition with `1 ≤ rows ≤ |q|`,
+`1 ≤ cols ≤ |t|` and every completion order, navis does not raise and each refined score lands in its own
+`(query, target)` cell; unselected cells keep their pre-NBLAST score. -/
+theorem smart_refine_any_order {α} (g : Nat → Nat → α) (mask : Nat → Nat → Bool) (nq nt rows cols : Nat)
+    (hr : 0 < rows) (hrq : rows ≤ nq) (hc : 0 < cols) (hct : cols ≤ nt) (scr : Mat α)
+    (done : List Job) (hperm : done.Perm (jobs nq nt rows cols)) :
+    ∃ s, refine g mask nq nt scr done = some s ∧
+      ∀ r c, s r c = if r < nq ∧ c < nt ∧ mask r c = true then some (g r c) else scr r c := by
+  obtain ⟨s, hs, hspec⟩ := refine_fold g mask nq nt rows cols hr hrq hc hct done
+    (fun j hj => hperm.mem_iff.mp hj) scr
+  refine ⟨s, hs, ?_⟩
+  intro r c
+  rw [hspec]
+  by_cases h : r < nq ∧ c < nt ∧ mask r c = true
+  · rw [if_pos h, if_pos]
+    obtain ⟨j, hj, hjc⟩ := cell_covered nq nt rows cols hr hc h.1 h.2.1
+    exact ⟨⟨j, hperm.mem_iff.mpr hj, hjc⟩, h.2.2⟩
+  · rw [if_neg h, if_neg]
+    rintro ⟨⟨j, hj, hjc⟩, hm⟩
+    have := job_in_range nq nt rows cols hr hc (hperm.mem_iff.mp hj) hjc
+    exact h ⟨this.1, this.2, hm⟩
+
+/-- The single-job path (`scr[mask] = this.pair_query_target(this.pairs)`) gives the same matrix. -/
+theorem smart_refine_serial {α} (g : Nat → Nat → α) (mask : Nat → Nat → Bool) (nq nt : Nat) (scr : Mat α) (r c : Nat) :
+    refineSerial g mask nq nt scr r c = if r < nq ∧ c < nt ∧ mask r c = true then some (g r c) else scr r c := by
+  unfold refineSerial
+  have hj : (⟨List.range nq, List.range nt⟩ : Job) = blockJob 0 nq 0 nt := by
+    simp [blockJob, List.range_eq_range']
+  have hjm : ∀ r c, (fun r c => decide (0 ≤ r ∧ r < 0 + nq ∧ 0 ≤ c ∧ c < 0 + nt) && mask r c) r c =
+      (decide (0 ≤ r ∧ r < 0 + nq ∧ 0 ≤ c ∧ c < 0 + nt) && mask r c) := fun _ _ => rfl
+  have hcells : maskCells nq nt mask =
+      maskCells nq nt (fun r c => decide (0 ≤ r ∧ r < 0 + nq ∧ 0 ≤ c ∧ c < 0 + nt) && mask r c) := by
+    unfold maskCells
+    apply flatMap_congr'
+    intro r hr
+    apply filterMap_congr'
+    intro c hc
+    rw [List.mem_range] at hr hc
+    have : decide (0 ≤ r ∧ r < 0 + nq ∧ 0 ≤ c ∧ c < 0 + nt) = true := by simp; omega
+    simp only [this, Bool.true_and]
+  have hvals : jobScores g mask ⟨List.range nq, List.range nt⟩ = (maskCells nq nt mask).map fun x => g x.1 x.2 := by
+    rw [hj, jobScores_block, hcells, maskCells_block mask nq nt 0 nq 0 nt (by omega) (by omega) _ hjm, List.map_map]
+    apply List.map_congr_left
+    intro ab _
+    simp
+  rw [placeMask_spec scr nq nt mask (fun x => g x.1 x.2) _ hvals]
+
+/-- **`nblast_smart` end to end**: pre-NBLAST assembled from jobs finishing in order `done1` (any partition),
+selection by *any* function of the pre-NBLAST matrix (percentile, score, top-N …), refinement from jobs
+finishing in order `done2` (any admissible partition): the result is fixed by the inputs alone. -/
+theorem smart_any_partition_any_order {α} (pre g : Nat → Nat → α) (select : Mat α → Nat → Nat → Bool)
+    (nq nt rows1 cols1 rows2 cols2 : Nat) (hr1 : 0 < rows1) (hc1 : 0 < cols1)
+    (hr2 : 0 < rows2) (hrq2 : rows2 ≤ nq) (hc2 : 0 < cols2) (hct2 : cols2 ≤ nt)
+    (done1 done2 : List Job) (h1 : done1.Perm (jobs nq nt rows1 cols1)) (h2 : done2.Perm (jobs nq nt rows2 cols2)) :
+    ∃ s, smart pre g select nq nt done1 done2 = some s ∧
+      ∀ r c, s r c =
+        if r < nq ∧ c < nt then
+          some (if select (fun r c => if r < nq ∧ c < nt then some (pre r c) else none) r c = true
+                then g r c else pre r c)
+        else none := by
+  unfold smart
+  have hscr : assemble pre done1 = fun r c => if r < nq ∧ c < nt then some (pre r c) else none := by
+    funext r c; exact assemble_any_order pre nq nt rows1 cols1 hr1 hc1 done1 h1 r c
+  rw [hscr]
+  obtain ⟨s, hs, hspec⟩ := smart_refine_any_order g
+    (select fun r c => if r < nq ∧ c < nt then some (pre r c) else none) nq nt rows2 cols2 hr2 hrq2 hc2 hct2
+    (fun r c => if r < nq ∧ c < nt then some (pre r c) else none) done2 h2
+  refine ⟨s, hs, ?_⟩
+  intro r c
+  rw [hspec]
+  by_cases hrc : r < nq ∧ c < nt
+  · by_cases hm : select (fun r c => if r < nq ∧ c < nt then some (pre r c) else none) r c = true
+    · simp only [hrc, hm, and_self, if_true]
+    · simp only [hrc, hm, and_false, and_self, if_true, if_false, Bool.false_eq_true]
+  · rw [if_neg hrc, if_neg (fun h => hrc ⟨h.1, h.2.1⟩), if_neg hrc]
+
+/-- An empty row block makes navis raise (`qix[0]`): the range theorems of section D are needed. -/
+example : refine (fun r c => r + c) (fun _ _ => true) 1 2 emptyMat (jobs 1 2 2 1) = none := by decide
+
+example : (refine (fun r c => 10 * r + c) (fun r c => r == c) 3 3 (fun _ _ => some 0) (jobs 3 3 2 2).reverse).map
+    (fun s => [s 0 0, s 0 1, s 1 1, s 2 2, s 2 1]) = some [some 0, some 0, some 11, some 22, some 0] := by decide
+
+end SmartSec
+
+/-! ## D. The partition functions -/
+
+/-- The `while (n_rows * n_cols) % n_cores: n_rows += 1` loop of `find_batch_partition` ends after fewer
+than `n_cores` increments, on a multiple of `n_cores`. -/
+theorem batch_loop_terminates (cols n rows : Nat) (hn : 0 < n) :
+    (batchRowsLoop cols n n rows * cols) % n = 0 ∧ batchRowsLoop cols n n rows < rows + n :=
+  batchRowsLoop_terminates cols n rows hn
+
+/-- `find_batch_partition` as navis calls it (without `n_cores`): `1 ≤ rows ≤ |q|`, `1 ≤ cols ≤ |t|` for
+every timing measurement. -/
+theorem batch_partition_in_range (npb nq nt : Nat) (hq : 0 < nq) (ht : 0 < nt) :
+    1 ≤ (findBatchPartition npb nq nt none).1 ∧ (findBatchPartition npb nq nt none).1 ≤ nq ∧
+    1 ≤ (findBatchPartition npb nq nt none).2 ∧ (findBatchPartition npb nq nt none).2 ≤ nt :=
+  findBatchPartition_range_none npb nq nt hq ht
+
+/-- With `n_cores`: columns unchanged; rows only grow, by less than `n_cores`, to the *first* count that
+makes the number of jobs a multiple of `n_cores` — and only if there are more jobs than cores. -/
+theorem batch_partition_cores (npb nq nt n : Nat) :
+    let base := max 1 (nq / npb)
+    let cols := max 1 (nt / npb)
+    let rc := findBatchPartition npb nq nt (some n)
+    rc.2 = cols ∧ base ≤ rc.1 ∧
+      (n ≠ 0 ∧ base * cols > n → (rc.1 * rc.2) % n = 0 ∧ rc.1 < base + n ∧
+          ∀ r, base ≤ r → r < rc.1 → (r * cols) % n ≠ 0) ∧
+      (¬ (n ≠ 0 ∧ base * cols > n) → rc.1 = base) :=
+  findBatchPartition_cores npb nq nt n
+
+/-- … in which case `rows ≤ |q|` is *not* guaranteed (3 queries, 4 cores ⇒ 4 row blocks). -/
+theorem batch_partition_cores_may_exceed : findBatchPartition 1 3 3 (some 4) = (4, 3) := by decide
+
+/-- `find_optimal_partition`: `rows` divides `n_cores`, `cols = min(n_cores / rows, |t|)`, never more jobs
+than cores. -/
+theorem optimal_partition_cores (N nq nt r c : Nat) (h : findOptimalPartition N nq nt = some (r, c)) :
+    N % r = 0 ∧ c = min (N / r) nt ∧ r * c ≤ N :=
+  findOptimalPartition_cores N nq nt r c h
+
+/-- Whatever `n_cores`, `progress` and the timing measurement: the partition `nblast` ends up with exists
+and satisfies `1 ≤ rows ≤ |q|`, `1 ≤ cols ≤ |t|`. -/
+theorem nblast_partition_in_range (ncores : Option Nat) (progress : Bool) (npbP npbM nq nt : Nat)
+    (hq : 0 < nq) (ht : 0 < nt) :
+    ∃ r c, chooseNblast ncores progress npbP npbM nq nt = some (r, c) ∧ 1 ≤ r ∧ r ≤ nq ∧ 1 ≤ c ∧ c ≤ nt := by
+  have h := chooseNblast_isSome ncores progress npbP npbM nq nt hq
+  cases hch : chooseNblast ncores progress npbP npbM nq nt with
+  | none => rw [hch] at h; simp at h
+  | some rc => exact ⟨rc.1, rc.2, rfl, chooseNblast_range ncores progress npbP npbM nq nt rc.1 rc.2 hq ht hch⟩
+
+/-- Same for `nblast_allbyall`, `nblast_smart`, `synblast`. -/
+theorem simple_partition_in_range (ncores : Option Nat) (progress : Bool) (npbP nq nt : Nat)
+    (hq : 0 < nq) (ht : 0 < nt) :
+    ∃ r c, chooseSimple ncores progress npbP nq nt = some (r, c) ∧ 1 ≤ r ∧ r ≤ nq ∧ 1 ≤ c ∧ c ≤ nt := by
+  have h := chooseSimple_isSome ncores progress npbP nq nt hq
+  cases hch : chooseSimple ncores progress npbP nq nt with
+  | none => rw [hch] at h; simp at h
+  | some rc => exact ⟨rc.1, rc.2, rfl, chooseSimple_range ncores progress npbP nq nt rc.1 rc.2 hq ht hch⟩
+
+/-- `n_cores`, `progress` and timing never change the `nblast` result (placement theorem + range theorem). -/
+theorem nblast_cores_irrelevant {α} (f : Nat → Nat → α) (nq nt : Nat) (hq : 0 < nq) (ht : 0 < nt)
+    (nc nc' : Option Nat) (pg pg' : Bool) (p1 p2 p1' p2' : Nat) :
+    ∃ r c r' c', chooseNblast nc pg p1 p2 nq nt = some (r, c) ∧ chooseNblast nc' pg' p1' p2' nq nt = some (r', c') ∧
+      ∀ done done', done.Perm (jobs nq nt r c) → done'.Perm (jobs nq nt r' c') → assemble f done = assemble f done' := by
+  obtain ⟨r, c, h, h1, _, h3, _⟩ := nblast_partition_in_range nc pg p1 p2 nq nt hq ht
+  obtain ⟨r', c', h', h1', _, h3', _⟩ := nblast_partition_in_range nc' pg' p1' p2' nq nt hq ht
+  exact ⟨r, c, r', c', h, h', fun done done' hd hd' =>
+    partition_and_order_irrelevant f nq nt r c r' c' h1 h3 h1' h3' done done' hd hd'⟩
+
+/-! ## E. `NeuronProcessor.__call__` / `map_neuronlist` as written -/
+
+/-- The zip rule for sequences (list, tuple, ndarray, NeuronList): one element per neuron ⇒ neuron `i` gets
+element `i`; any other length ⇒ every neuron gets the whole value. -/
+theorem zip_rule_seq {β} (n i : Nat) (vs : List β) (hi : i < n) :
+    (∀ h : vs.length = n, parseVal n i false (.seq vs) = some (.atom (vs[i]'(by omega)))) ∧
+    (vs.length ≠ n → parseVal n i false (.seq vs) = some (.seq vs)) :=
+  ⟨fun h => parseVal_seq_match n i vs h hi, parseVal_seq_other n i vs⟩
+
+/-- `None`, numbers, strings (whatever their length), DataFrames and everything listed in `exclude_zip` are
+passed to every neuron unchanged. -/
+theorem zip_rule_whole {β} (n i : Nat) (a : Val β) :
+    parseVal n i true a = some a ∧ (a.isIterable = false → ∀ ex, parseVal n i ex a = some a) :=
+  ⟨parseVal_excluded n i a, fun h ex => parseVal_not_iterable n i ex a h⟩
+
+/-- A dict with as many keys as neurons is looked up *by key* `i` (a missing key makes the call raise before
+any neuron is processed); generators and sets of matching size raise as well. -/
+theorem zip_rule_dict {β} (n i : Nat) (kvs : List (Nat × β)) (o : Nat) (h : kvs.length + o = n) :
+    parseVal n i false (.dict kvs o) = (kvs.lookup i).map .atom ∧
+    parseVal n i false (Val.unsized : Val β) = none ∧ parseVal n i false (Val.unindexable n : Val β) = none :=
+  ⟨parseVal_dict_match n i kvs o h, by simp [parseVal, Val.isIterable, Val.len?],
+   by simp [parseVal, Val.isIterable, Val.len?, Val.index?]⟩
+
+/-- What neuron `i`'s call looks like: unless position 0 is excluded the first argument is neuron `i`
+itself; positional argument `k` (counted after the list) and every keyword follow the zip rule. -/
+theorem zipW_call_spec {ν β} (nl : List ν) (exclPos : List Nat) (exclKw : List String)
+    (args : List (Val β)) (kwargs : List (String × Val β)) (i : Nat) (c : Call ν β)
+    (h : parseCall nl exclPos exclKw args kwargs i = some c) :
+    (0 ∉ exclPos → c.first = (nl[i]?).elim (.inr []) .inl ∧ (nl[i]?).isSome) ∧
+    c.args.length = args.length ∧
+    (∀ k (hk : k < args.length), c.args[k]? = parseVal nl.length i (decide (k + 1 ∈ exclPos)) args[k]) ∧
+    c.kwargs.length = kwargs.length ∧
+    (∀ k (hk : k < kwargs.length), c.kwargs[k]? =
+        (parseVal nl.length i (decide (kwargs[k].1 ∈ exclKw)) kwargs[k].2).map fun v => (kwargs[k].1, v)) :=
+  parseCall_spec nl exclPos exclKw args kwargs i c h
+
+/-- Results in list order, each from its own function and its own call. -/
+theorem zipW_results_in_order {ν β γ} (f : Nat → Call ν β → Res γ) (nl : List ν) (exclPos : List Nat)
+    (exclKw : List String) (args : List (Val β)) (kwargs : List (String × Val β)) (omitF : Bool)
+    (calls : List (Call ν β)) (hcalls : (List.range nl.length).mapM (parseCall nl exclPos exclKw args kwargs) = some calls)
+    (hall : ∀ k (hk : k < calls.length), (f k calls[k]).isSome) (out : List γ)
+    (h : processW f nl exclPos exclKw args kwargs omitF = some out) :
+    out.length = nl.length ∧ ∀ k (hk : k < calls.length), f k calls[k] = out[k]? :=
+  processW_in_order f nl exclPos exclKw args kwargs omitF calls hcalls hall out h
+
+/-- `omit_failures=True`: exactly the failing runs disappear, the rest keeps its order. -/
+theorem zipW_omit_failures {ν β γ} (f : Nat → Call ν β → Res γ) (nl : List ν) (exclPos : List Nat)
+    (exclKw : List String) (args : List (Val β)) (kwargs : List (String × Val β)) :
+    processW f nl exclPos exclKw args kwargs true =
+      ((List.range nl.length).mapM (parseCall nl exclPos exclKw args kwargs)).map fun calls =>
+        calls.zipIdx.filterMap fun p => f p.2 p.1 :=
+  processW_omit f nl exclPos exclKw args kwargs
+
+/-- `parallel=True` (ordered `imap`) with any chunk size — and any number of workers, which the model does
+not even mention — returns what the serial loop returns, failures and exceptions included. -/
+theorem zipW_serial_eq_parallel {ν β γ} (f : Nat → Call ν β → Res γ) (nl : List ν) (exclPos : List Nat)
+    (exclKw : List String) (args : List (Val β)) (kwargs : List (String × Val β)) (omitF : Bool) (cs : Nat) :
+    processWParallel f nl exclPos exclKw args kwargs omitF cs = processW f nl exclPos exclKw args kwargs omitF :=
+  processWParallel_eq f nl exclPos exclKw args kwargs omitF cs
+
+/-- When every run returns a neuron the result is the NeuronList of those neurons in that order. -/
+theorem finish_neurons_in_order {ν γ} (xs : List ν) : finish (xs.map (Ret.neuron (γ := γ))) = .neuronlist xs :=
+  finish_all_neurons xs
+
+/-- `map_neuronlist`: if the wrapper gets as far as calling the processor, (1) the positions excluded from
+zipping are exactly `1 … nargs` — never position 0, the list itself; (2) no `can_zip` / `must_zip` keyword is
+excluded; (3) every `must_zip` value has one entry per neuron; (4) every iterable `can_zip` value has. -/
+theorem map_neuronlist_plan {β} (cfg : MapCfg) (n nargs : Nat) (kwargs : List (String × Val β)) (parallel : Bool)
+    (inplaceKw omitKw : Option Bool) (plan : MapPlan)
+    (h : mapNeuronlist cfg n nargs kwargs parallel inplaceKw omitKw = .ok plan) :
+    plan.exclPos = List.range' 1 nargs ∧ 0 ∉ plan.exclPos ∧
+    (∀ k ∈ plan.exclKw, ¬ k ∈ cfg.canZip ∧ ¬ k ∈ cfg.mustZip) ∧
+    (∀ p ∈ cfg.mustZip, ∀ v, kwargs.lookup p = some v → v ≠ .pyNone → v.makeIterableLen = some n) ∧
+    (∀ p ∈ cfg.canZip, ∀ v, kwargs.lookup p = some v → v.isIterable = true → v.len? = some n) := by
+  obtain ⟨h1, h2, h3, h4⟩ := mapNeuronlist_ok cfg n nargs kwargs parallel inplaceKw omitKw plan h
+  refine ⟨h1, ?_, h2, h3, h4⟩
+  rw [h1, List.mem_range'_1]; omega
+
+/-- Hence a `must_zip` list survives validation only with one value per neuron, is not excluded, and neuron
+`i` receives value `i`. -/
+theorem map_neuronlist_mustzip_matched {β} (cfg : MapCfg) (n nargs : Nat) (kwargs : List (String × Val β))
+    (parallel : Bool) (inplaceKw omitKw : Option Bool) (plan : MapPlan)
+    (h : mapNeuronlist cfg n nargs kwargs parallel inplaceKw omitKw = .ok plan)
+    (p : String) (hp : p ∈ cfg.mustZip) (vs : List β) (hv : kwargs.lookup p = some (.seq vs)) (i : Nat) (hi : i < n) :
+    ∃ hlen : vs.length = n,
+      parseVal n i (decide (p ∈ plan.exclKw)) (.seq vs) = some (.atom (vs[i]'(by omega))) := by
+  obtain ⟨_, _, h2, h3, _⟩ := map_neuronlist_plan cfg n nargs kwargs parallel inplaceKw omitKw plan h
+  have hlen : vs.length = n := by
+    have := h3 p hp _ hv (by simp)
+    simpa [Val.makeIterableLen] using this
+  refine ⟨hlen, ?_⟩
+  have hne : ¬ p ∈ plan.exclKw := fun hk => (h2 p hk).2 hp
+  rw [decide_eq_false hne]
+  exact parseVal_seq_match n i vs hlen hi
+
+/-! ### Non-vacuity (second pass) -/
+
+example : (jobs 4 3 2 2).reverse.Perm (jobs 4 3 2 2) := List.reverse_perm _
+example : assembleBoth (fun r c => (10 * r + c, 100 + 10 * r + c)) (jobs 3 2 2 1).reverse 5 1 = some 121 := by decide
+example : assembleBoth (fun r c => (10 * r + c, 100 + 10 * r + c)) (jobs 3 2 2 1).reverse 4 1 = some 21 := by decide
+example : bothRows [3, 4] = [6, 7, 8, 9] := by decide
+example : Navis.JobSpec.ValidEnum [5, 3, 4, 9] ⟨[3, 4], [5]⟩ := ⟨by decide, by decide⟩
+example : chooseNblast (some 4) false 3 1 3 5 = some (3, 5) := by decide
+example : chooseNblast (some 8) false 3 9 3 5 = some (2, 4) := by decide
+example : findBatchPartition 2 9 9 (some 5) = (5, 4) := by decide
+example : mapNeuronlist (β := Nat) ⟨["cz"], ["mz"], true, true, false⟩ 3 2
+    [("mz", .seq [1, 2, 3]), ("other", .seq [1, 2, 3])] true none none =
+    .ok ⟨[1, 2], ["other", "inplace"], ["mz", "other", "inplace"], true, false, false⟩ := by rfl
+example : mapNeuronlist (β := Nat) ⟨["cz"], ["mz"], true, true, false⟩ 3 0
+    [("mz", .seq [1, 2])] false none none = .error .mustZipLen := by rfl
+example : processW (fun i (c : Call Nat Nat) => if i = 1 then none else some (c.first, c.args)) [7, 8, 9] [2] []
+    [.seq [1, 2, 3], .seq [1, 2, 3], .atom 5] [] true =
+    some [(.inl 7, [.atom 1, .seq [1, 2, 3], .atom 5]), (.inl 9, [.atom 3, .seq [1, 2, 3], .atom 5])] := by decide
+
+/-! ### `map_neuronlist_df` (`segment_analysis` on a NeuronList)
+
+Full statement (what the property demands):
+
+    theorem mapdf_labels {ν γ} (f : ν → Res γ) (nl : List ν) (h : ∃ x ∈ nl, (f x).isSome) :
+        mapDfW f nl true = some (nl.filterMap fun x => (f x).map fun v => (x, v))
+
+It is **false** for the code as written (open finding `map_neuronlist_df/omit_failures/ids-misaligned`):
+the frames that survive are zipped with the *unfiltered* neuron list, so after the first failure every
+frame gets the id of an earlier neuron and the last ids are lost.  Proved: the statement when nothing
+fails; and the counterexample. -/
+
+theorem mapdf_labels_partial {ν γ} (g : ν → γ) (nl : List ν) (hne : nl ≠ []) (omitF : Bool) :
+    mapDfW (fun x => some (g x)) nl omitF = some (nl.map fun x => (x, g x)) :=
+  mapDfW_no_failure g nl hne omitF
+
+/-- Neurons 0, 1, 2; neuron 1 fails: neuron 2's frame (value 20) is labelled with id 1, id 2 disappears. -/
+theorem mapdf_labels_counterexample :
+    mapDfW (fun x => if x = 1 then none else some (10 * x)) [0, 1, 2] true = some [(0, 0), (1, 20)] ∧
+    [0, 1, 2].filterMap (fun x => (if x = 1 then none else some (10 * x)).map fun v => (x, v)) = [(0, 0), (2, 20)] := by
+  decide
 
 end Navis.Props.C09
